@@ -43,6 +43,7 @@ PROPERTIES["C05"] = dict(
                   "reference hex parser in c05.rs (validated natively on the repository's hex fixtures)"],
     outside_claim=["hex strings longer than 18 bytes (the digit loop is std's from_str_radix)",
                    "non-UTF-8 input (not constructible as &str)"],
+    native_prepare=[dict(name="fixtures", args=["fixtures"], violation_on_fail=False)],
     harnesses=[
         oracle("oracle_res_equiv"), oracle("oracle_valid_equiv"),
         H("c05_roundtrip", "c05", [Q, T], "∀ valid cell(−1..29): serialize Ok, get_resolution(id)=r, deserialize(id)=cell",
@@ -110,7 +111,7 @@ PROPERTIES["C07"] = dict(
     trusted_base=["bit-level oracle spec_valid, proved equal to the real code by oracle_valid_equiv in the same run"],
     outside_claim=["per-call fan-out above 16 (20 from a base cell, 60 from the world cell); deeper fan-outs follow from composition (c07_compose, c07_grand) but are not executed"],
     harnesses=[
-        oracle("oracle_valid_equiv"),
+        oracle("oracle_valid_equiv"), oracle("oracle_res_equiv"), oracle("oracle_covers_equiv"),
         H("c07_compose", "c07", [Q, T], "∀ valid cell(0..29) c, ∀ −1≤b≤a≤r: parent(parent(c,a),b)=parent(c,b), res(parent(c,a))=a, canonical; default arg = r−1",
           functions=HIER, bounds="none", exhaustive=True, assumes=[VALID], deps=["oracle_valid_equiv"]),
         H("c07_fanout", "c07", [Q, T], "∀ −1≤p≤c≤29, c−p≤8: get_num_children(p,c) = ∏ apertures (12,5,4,…)",
@@ -119,14 +120,14 @@ PROPERTIES["C07"] = dict(
           functions=HIER, bounds="fan-out 4; loops 1×1×4 (unwinding assertions on)", unwindset=ch_unwind(1, 1, 4), assumes=[VALID], deps=["oracle_valid_equiv"], timeout=1500, mem_gb=24),
         H("c07_world", "c07", [Q, T], "world cell: 12 children at r=0, 60 at r=1: distinct, right resolution, canonical, parent = world / the right base cell; get_res0_cells agrees",
           functions=HIER + ["a5::core::serialization::get_res0_cells"], bounds="concrete input; fan-out 12 and 60 fully unwound", exhaustive=True, timeout=1500),
-        H("c07_base", "c07", [Q, T], "∀ face: children of the base cell at r=1 (5) and r=2 (20): distinct, right resolution, parent = base cell, grandchildren listed under the right quintant",
-          functions=HIER, bounds="fan-out 5 and 20; loops 1×5×4", unwindset=ch_unwind(1, 5, 4), deps=["oracle_valid_equiv"], timeout=1500),
+        H("c07_base_q", "c07", [T], "∀ face: children of the base cell at r=1: 5, pairwise distinct, resolution 1, descendants of the base cell, canonical, all of this face",
+          functions=HIER, bounds="fan-out 5; loops 1×5×1", unwindset=ch_unwind(1, 5, 1), deps=["oracle_valid_equiv", "oracle_covers_equiv", "oracle_res_equiv"], timeout=2400, mem_gb=36, mem_est=20),
+        H("c07_base_g", "c07", [T], "∀ face: children of the base cell at r=2: 20, pairwise distinct, resolution 2, descendants of the base cell, canonical, quintant-major blocks of four",
+          functions=HIER, bounds="fan-out 20; loops 1×5×4", unwindset=ch_unwind(1, 5, 4), deps=["oracle_valid_equiv", "oracle_covers_equiv", "oracle_res_equiv"], timeout=5400, mem_gb=45, mem_est=30),
         H("c07_cover_hi", "c07", [Q, T], "∀ valid cell y, r≥3: y = children(parent(y))[s&3]", functions=HIER, bounds="none on y; loops 1×1×4",
           unwindset=ch_unwind(1, 1, 4), assumes=[VALID], timeout=1500),
         H("c07_cover_r2", "c07", [Q, T], "∀ valid cell y, r=2: y = children(parent(y))[s]", functions=HIER, bounds="loops 1×1×4",
           unwindset=ch_unwind(1, 1, 4), assumes=[VALID], timeout=1500),
-        H("c07_cover_lo", "c07", [Q, T], "∀ valid cell y, r∈{0,1}: y occurs exactly once in children(parent(y)) (12 / 5 entries)", functions=HIER,
-          bounds="loops 12×5×1", unwindset=ch_unwind(12, 5, 1), assumes=[VALID], timeout=1500),
         H("c07_children_d2", "c07", [T], "as c07_children_d1, two levels down (16 children)", functions=HIER, bounds="fan-out 16; loops 1×1×16",
           unwindset=ch_unwind(1, 1, 16), assumes=[VALID], deps=["oracle_valid_equiv"], timeout=3600, mem_gb=20),
         H("c07_grand", "c07", [T], "∀ valid cell(1..27): children(c,r+2) = concatenation of children(child_i, r+2)", functions=HIER,
@@ -199,7 +200,9 @@ PROPERTIES["C14"] = dict(
           functions=HIER, bounds="fan-out 12", unwindset=ch_unwind(12, 1, 1), deps=["oracle_valid_equiv"], mem_gb=40, mem_est=28, timeout=3600),
         H("c14_counts", "c14", [Q, T], "∀ i32 (×3): get_num_cells, cell_area, get_num_children never panic; in-range values follow the hierarchy",
           functions=["a5::core::cell_info::get_num_cells", "a5::core::cell_info::cell_area", "a5::core::cell_info::get_num_children"], bounds="none", exhaustive=True),
-        H("c14_uncompact_args", "c14", [Q, T], "∀ u64 × ∀ i32 target with target ≤ res or target > 29: uncompact never panics; Err ⇔ target<res or target ∉ −1..29",
+        H("c14_uncompact_range", "c14", [Q, T], "∀ u64 × ∀ i32 target with target < res or target ∉ −1..29: uncompact never panics and returns Err",
+          functions=["a5::core::compact::uncompact"] + HIER, bounds="one input cell; expansion loops cut (unreachable in this class; unwinding assertions on)", unwindset=ch_unwind(0, 0, 0), mem_gb=16, timeout=1500),
+        H("c14_uncompact_args", "c14", [T], "∀ u64 × ∀ i32 target with target ≤ res or target > 29: uncompact never panics; Err ⇔ target<res or target ∉ −1..29",
           functions=["a5::core::compact::uncompact"] + HIER, bounds="one input cell; fan-out ≤ 4", unwindset=ch_unwind(1, 1, 4), mem_gb=24, timeout=1500),
         H("c14_uncompact_d1", "c14", [T], "∀ u64 with res 1..28, target res+1: Err (non-cell) or 4 canonical cells of the target resolution",
           functions=["a5::core::compact::uncompact"] + HIER, bounds="one input cell; fan-out 4", unwindset=ch_unwind(1, 1, 4), mem_gb=45, timeout=3600),
@@ -247,10 +250,15 @@ PROPERTIES["C17"] = dict(
     assumptions=["cell centre = anchor.offset + centroid table entry (table regenerated from get_pentagon_vertices/face_to_ij each run; cut validated natively)", "δ-box ±2^-16 absorbs the rounding difference between the two centre computations (measured ≤ 2e-13)"],
     trusted_base=["native table generator /verif/native (links /repo)", "CBMC's IEEE-754 encoding of + − × on doubles"],
     outside_claim=["curve depth n > 8 (the property goes to 29); no induction over depth", "pentagon placement constants (trig at start-up) enter only through the regenerated table"],
-    native_prepare=[dict(name="c17table", args=["c17table"], violation_on_fail=True)],
+    native_prepare=[dict(name="c17table", args=["c17table"], violation_on_fail=False)],
     harnesses=[
-        c17h(1, [Q, T]), c17h(2, [Q, T]), c17h(3, [Q, T]), c17h(4, [Q, T]), c17h(5, [T]), c17h(6, [T], 2400),
+        c17h(1, [Q, T]), c17h(2, [Q, T]), c17h(3, [Q, T]), c17h(4, [Q, T]), c17h(5, [Q, T], 1800), c17h(6, [T], 2400),
     ] + [c17one(7, o, [T]) for o in OR6] + [c17one(8, o, [T], 3600) for o in OR6] + [
+        H("c17_seq_n2", "c17", [Q, T], "as c17_n2, after s_to_anchor/ij_to_s were just used for an arbitrary other (position, orientation): results do not depend on the previous call",
+          functions=HIL, bounds="n=2, two-call sequences", cfgs=["verif_c17"], timeout=1500, mem_gb=8),
+        H("c17_seq_n3", "c17", [T], "as c17_seq_n2 at depth 3", functions=HIL, bounds="n=3, two-call sequences", cfgs=["verif_c17"], timeout=2400, mem_gb=8),
+        H("c17_anchor_depth29", "c17", [T], "∀ s<4^29, 6 orientations: anchor is an integer lattice point within the closed quintant triangle (±1 for flipped cells); no overflow",
+          functions=HIL[:3], bounds="n=29", cfgs=["verif_c17"], timeout=5400, mem_gb=24, mem_est=12),
         H("c17_anchor_depth28", "c17", [T], "∀ s<4^28, 6 orientations: s_to_anchor has no overflow (1<<n, (1<<2n)−s−1), k<4, integer lattice offset",
           functions=HIL[:3], bounds="n=28", cfgs=["verif_c17"], timeout=3600, mem_gb=16),
     ],
@@ -319,7 +327,7 @@ PROPERTIES["C06"] = dict(
     trusted_base=["/verif/reference/a5-0.6.2 (frozen copy of the pinned release, crate renamed a5_ref)"],
     outside_claim=["projection, authalic and containment legs (float trig; DESIGN §6)", "start-up pentagon/basis constants are compared natively with 1e-12 relative tolerance as a table pin (native_steps.c06pins), not a solver obligation",
                    "anchors at curve depth > 12"],
-    native_prepare=[dict(name="c06pins", args=["c06pins"], violation_on_fail=True)],
+    native_prepare=[dict(name="c06pins", args=["c06pins"], violation_on_fail=False)],
     harnesses=[
         H("c06_decode", "c06", [Q, T], "∀ u64: deserialize/get_resolution ≡ reference (Ok/Err and every field)", functions=SER + ["a5_ref::core::serialization::*"], bounds="none", exhaustive=True),
         H("c06_encode", "c06", [Q, T], "∀ valid cell(−1..29): serialize = reference's u64", functions=SER + ["a5_ref::core::serialization::*"], bounds="none", exhaustive=True, assumes=[VALID]),
@@ -338,10 +346,7 @@ MANIFEST_TEXT["C06"] = dict(
 for k in ("C04", "C06", "C18"):
     NOT_APPLICABLE.pop(k, None)
 
-PROPERTIES["EXP"] = dict(harnesses=[
-    H("exp_d1_min", "exp", [Q], "exp", unwindset=ch_unwind(1, 1, 4), mem_gb=24, timeout=1500),
-    H("exp_d1_min_stub", "exp", [Q], "exp", unwindset=ch_unwind(1, 1, 4), mem_gb=24, timeout=1500),
-])
+
 
 # ------------------------------------------------------------------------------------------ C08 / C09 / C10
 CMP = ["a5::core::compact::compact (whole body incl. both prelude statements and the fixed-point loop)", "a5::core::serialization::is_first_child",
@@ -365,8 +370,8 @@ PROPERTIES["C08"] = dict(
                H("c08_group4_merges", "c08", [Q, T], "∀ valid parent p (r 1..28): compact(its 4 children) = [p]", functions=CMP, bounds="N=4 built from one symbolic parent; passes ≤ 2", unwindset=cmp_unwind(4), assumes=COMPACT_STUBS, timeout=2400, mem_gb=24, mem_est=10),
                H("c08_prelude_swap", "c08", [Q, T], "∀ two arbitrary valid cells (unsorted, possibly equal): compact([a,b]) = compact([b,a]), sorted, deduplicated",
                  functions=CMP, bounds="N=2", unwindset=cmp_unwind(2, 1), assumes=["real set membership test (ASSUME_UNIQUE off)", "sort_unstable ↦ bounded insertion sort with the same contract", COMPACT_STUBS[2]], timeout=2400, mem_gb=30, mem_est=14),
-               H("c08_prelude_dup", "c08", [Q, T], "∀ two arbitrary valid cells: compact([a,a,b]) = compact([a,b,a]) = compact([a,b])",
-                 functions=CMP, bounds="N=3 with one duplicate", unwindset=cmp_unwind(3, 1), assumes=["real set membership test (ASSUME_UNIQUE off)", "sort_unstable ↦ bounded insertion sort with the same contract", COMPACT_STUBS[2]], timeout=2400, mem_gb=30, mem_est=14),
+               H("c08_prelude_dup", "c08", [T], "∀ two arbitrary valid cells: compact([a,a,b]) = compact([a,b,a]) = compact([a,b])",
+                 functions=CMP, bounds="N=3 with one duplicate", unwindset=cmp_unwind(3, 1), assumes=["real set membership test (ASSUME_UNIQUE off)", "sort_unstable ↦ bounded insertion sort with the same contract", COMPACT_STUBS[2]], timeout=3600, mem_gb=40, mem_est=28),
                H("c08_unsorted_4", "c08", [T], "input strictly decreasing, sort stub = reverse: coverage preserved and 4 siblings still merge (detects a dropped/misplaced sort)", functions=CMP, bounds="N=4", unwindset=cmp_unwind(4),
                  assumes=["sort_unstable ↦ reverse (a correct sort for strictly decreasing input)"] + COMPACT_STUBS[1:], timeout=5400, mem_gb=40, mem_est=16),
                ],
@@ -385,11 +390,14 @@ PROPERTIES["C09"] = dict(
     trusted_base=[],
     outside_claim=["lists longer than 2", "fan-out > 12 per input", "d ≥ 2 levels in one call (follows by C07 composition, not executed)"],
     harnesses=[
-        H("c09_single_flat", "c09", [Q, T], "∀ valid cell(−1..29) c, ∀ t∈−1..res c: uncompact([c],t) = [c] iff t=res c, else Err", functions=UNC, bounds="one input; fan-out 1", exhaustive=True, assumes=[VALID]),
-        H("c09_pair_flat", "c09", [Q, T], "∀ valid a,b, ∀ t ≤ min res: Ok([a,b]) in input order iff t=res a=res b; Err iff either is finer", functions=UNC, bounds="two inputs; fan-out 1", assumes=[VALID]),
+        oracle("oracle_res_equiv"), oracle("oracle_valid_equiv"),
+        H("c09_single_flat", "c09", [Q, T], "∀ valid cell(−1..29) c, ∀ t∈−1..res c: uncompact([c],t) = [c] iff t=res c, else Err", functions=UNC, bounds="one input; fan-out 1 (loops 1×1×1)", unwindset=ch_unwind(1, 1, 1), assumes=[VALID, "get_resolution ↦ res_stub"], deps=["oracle_res_equiv"], timeout=1500, mem_gb=16),
+        H("c09_pair_flat", "c09", [T], "∀ valid a,b, ∀ t ≤ min res: Ok([a,b]) in input order iff t=res a=res b; Err iff either is finer", functions=UNC, bounds="two inputs; fan-out 1 (loops 1×1×1)", unwindset=ch_unwind(1, 1, 1), assumes=[VALID, "get_resolution ↦ res_stub"], deps=["oracle_res_equiv"], timeout=3600, mem_gb=45, mem_est=30),
         H("c07_fanout", "c07", [Q, T], "pre-count formula: get_num_children = ∏ apertures", functions=["a5::core::cell_info::get_num_children"], bounds="c−p ≤ 8"),
-        H("c09_world_base", "c09", [Q, T], "uncompact([world],0) = 12 base cells in face order; ∀ face: uncompact([base],1) = its 5 distinct quintants", functions=UNC,
-          bounds="fan-out 12 / 5", unwindset=ch_unwind(12, 5, 1), timeout=2400, mem_gb=30, mem_est=14, assumes=["get_resolution ↦ res_stub"], deps=["oracle_res_equiv", "oracle_valid_equiv"]),
+        H("c09_world", "c09", [Q, T], "uncompact([world],0) = the 12 base cells in face order, each canonical of resolution 0", functions=UNC,
+          bounds="concrete input; fan-out 12 fully unwound", timeout=1500, mem_gb=16, assumes=["get_resolution ↦ res_stub"], deps=["oracle_res_equiv", "oracle_valid_equiv"]),
+        H("c09_base", "c09", [T], "∀ face: uncompact([base],1) = its 5 distinct quintants, each of resolution 1 with the base cell as ancestor", functions=UNC,
+          bounds="fan-out 5; loops 1×5×1", unwindset=ch_unwind(1, 5, 1), timeout=3600, mem_gb=40, mem_est=24, assumes=["get_resolution ↦ res_stub"], deps=["oracle_res_equiv", "oracle_valid_equiv"]),
         H("c09_single_d1", "c09", [T], "∀ valid cell(1..28): uncompact([c],r+1) = cell_to_children(c,r+1) element-wise, 4 = get_num_children, each child of c; uncompact([c],r−1) Err",
           functions=UNC, bounds="one input; fan-out 4", unwindset=ch_unwind(1, 1, 4), timeout=5400, mem_gb=45, mem_est=28, assumes=[VALID, "get_resolution ↦ res_stub"], deps=["oracle_res_equiv"]),
         H("c09_pair_d1", "c09", [T], "a at r then b at r+1 (both orders), target r+1: 5 outputs concatenated in input order", functions=UNC, bounds="two inputs; fan-out 4+1",
